@@ -678,7 +678,11 @@ class Parser:
         value = None
         text = str(self._current_token)
         if self._current_token.is_a(TokenTypes.NUMBER):
-            value = int(text) if Lex.is_int(text) else float(text)
+            try:
+                value = int(text) if Lex.is_int(text) else float(text)
+            except ValueError:
+                # int() refuses a literal with thousands of digits.
+                self.token_error('Number is too long: "{}"')
         elif self._current_token.is_a(TokenTypes.LITERAL_STRING):
             value = str(self._current_token)
         elif self._current_token.is_a(TokenTypes.TIME_PATTERN):
